@@ -71,5 +71,12 @@ func (s LZ4Compressor) Decode(data []byte) ([]byte, error) {
 	}
 	buf := make([]byte, uncompressedLength)
 	n, err := lz4.UncompressBlock(data[4:], buf)
-	return buf[:n], err
+	if err != nil {
+		return nil, err
+	}
+	if uint32(n) != uncompressedLength {
+		// the block is truncated or corrupt, or the length prefix is wrong
+		return nil, fmt.Errorf("cassandra lz4 block decompressed to %d bytes, length prefix says %d", n, uncompressedLength)
+	}
+	return buf, nil
 }
